@@ -76,7 +76,7 @@ func finalClientAudit(w *World, final *servedSTH) {
 	s := w.s
 	hc := &http.Client{Transport: inproc{w}}
 	// a log key on a curve RFC 6962 does not provide for: the library's client takes it only when told to (process-global switch; one run at a time per process)
-	ct.AllowVerificationWithNonCompliantKeys = w.prof.LogKeyKind == "p384"
+	ct.AllowVerificationWithNonCompliantKeys = w.prof.LogKeyKind == "p384" || w.prof.LogKeyKind == "p224"
 	lc, err := client.New("https://log.test"+w.prefix, hc, jsonclient.Options{PublicKeyDER: w.logKey.SPKI})
 	if err != nil {
 		s.Violate("harness", "client", "client.New: %v", err)
